@@ -295,12 +295,12 @@ def part_generated(ctx, examples, poly=False):
 PARTS = {"generated": part_generated}
 REPLAY = {"generated": check_case}
 KNOWN = {"trailing_nul_stripped": known_trailing_nul, "big_int_rounded_in_float_column": known_big_int_in_float_column}
-FLOORS = {"nontrivial": ("", 0.1), "polymorphic -> ValueError": ("", 0.01),
+FLOORS = {"nontrivial": ("", 0.1), "polymorphic -> ValueError": ("", 0.002),
           "files given in an order other than by name": ("", 0.1)}
 
 
 def plan(tier, seed):
     q = tier == "quick"
     tasks = [("generated", {"examples": 150 if q else 4000}) for _ in range(14)]
-    tasks += [("generated", {"examples": 60 if q else 1000, "poly": True}) for _ in range(2)]
+    tasks += [("generated", {"examples": 100 if q else 1000, "poly": True}) for _ in range(2)]
     return tasks
